@@ -17,7 +17,7 @@ pattern matches the whole string"); the naive-value rule of DateTime is the para
 applied exactly where the source rebinds ``value``.  Fail closed: any other shape raises TranslateError.
 """
 import ast, sys, inspect, importlib, datetime
-from .pyexpr import (BoolTranslator, TranslateError, find_function, single_return, attr_chain, TRUE, FALSE)
+from .pyexpr import (BoolTranslator, TranslateError, find_function, single_return, body_as_expr, attr_chain, TRUE, FALSE)
 
 
 def _tree(mod):
@@ -88,7 +88,7 @@ def translate_text(ctx, fam, cls, meth, kind, mode):
         return name
     if [a.arg for a in fn.args.args] != ['cls', 'value']:
         raise TranslateError('%s.%s: unexpected signature' % (owner.__name__, meth))
-    expr = single_return(fn)
+    expr = body_as_expr(fn)
 
     def num(n):
         if isinstance(n, ast.Call) and isinstance(n.func, ast.Name) and n.func.id == 'len' and len(n.args) == 1 \
@@ -210,16 +210,14 @@ def translate_range(ctx, fam, cls, meth, mode, localize=False):
         raise TranslateError('%s.%s: unexpected signature' % (owner.__name__, meth))
     body = _strip_doc(fn.body)
     has_prelude = False
-    if len(body) == 2 and isinstance(body[0], ast.If):
-        if not _same(body[:1], DATETIME_PRELUDE):
-            raise TranslateError('%s.%s: unrecognised statement before the return' % (owner.__name__, meth))
+    if body and _same(body[:1], DATETIME_PRELUDE):
+        # the one statement that rebinds `value`; everything after it sees the localized value
         if getattr(mod, 'datetime', None) is not datetime or getattr(mod, 'spyne', None) is not ctx.mods['spyne']:
             raise TranslateError('%s: datetime / spyne do not name the expected modules' % mod.__name__)
         has_prelude = True
         body = body[1:]
-    if len(body) != 1 or not isinstance(body[0], ast.Return) or body[0].value is None:
-        raise TranslateError('%s.%s: body is not [naive-value rule;] return <expr>' % (owner.__name__, meth))
-    expr = body[0].value
+    # the rest: a return expression, possibly spelled with guard clauses and aliasing locals
+    expr = body_as_expr(fn, body, frozen=('value', 'cls'))
 
     def bound(n):
         ch = attr_chain(n)
